@@ -28,35 +28,8 @@ def ToBytesPack : List String :=
 def ToPack : List String :=
   ["in := io.NewDataInputX(b)", "return ReadPack(in)"]
 
-def EventPack_Write : List String :=
-  ["this.AbstractPack.Write(dout)", "dout.WriteByte(this.Level)", "dout.WriteText(this.Title)", "dout.WriteText(this.Message)", "if this.Uuid != \"\" {", "this.Attr.Put(UUID_KEY, this.Uuid)", "}", "if this.Escalation {", "this.Attr.Put(ESCALATION_KEY, \"true\")", "} else {", "this.Attr.Put(ESCALATION_KEY, \"false\")", "}", "this.Attr.Put(STATUS_KEY, fmt.Sprintf(\"%d\", this.Status))", "this.Attr.Put(OTYPE_KEY, fmt.Sprintf(\"%d\", this.Otype))", "sz := this.Attr.Size()", "dout.WriteByte(byte(sz))", "en := this.Attr.Entries()", "for i < sz {", "dout.WriteText(e.GetKey())", "dout.WriteText(e.GetValue().(string))", "}", "this.Attr.Remove(UUID_KEY)", "this.Attr.Remove(ESCALATION_KEY)", "this.Attr.Remove(STATUS_KEY)", "this.Attr.Remove(OTYPE_KEY)"]
-
-def EventPack_Read : List String :=
-  ["this.AbstractPack.Read(din)", "this.Level = din.ReadByte()", "this.Title = din.ReadText()", "this.Message = din.ReadText()", "sz := int(din.ReadByte())", "for i < sz {", "key := din.ReadText()", "value := din.ReadText()", "this.Attr.Put(key, value)", "}", "val := this.Attr.Remove(ESCALATION_KEY)", "if val != nil {", "if val.(string) == \"true\" {", "this.Escalation = true", "} else {", "this.Escalation = false", "}", "}", "val = this.Attr.Remove(UUID_KEY)", "if val != nil {", "this.Uuid = val.(string)", "} else {", "}", "val = this.Attr.Remove(OTYPE_KEY)", "if val != nil {", "if err == nil {", "this.Otype = int32(v)", "} else {", "this.Otype = 0", "}", "}", "val = this.Attr.Remove(STATUS_KEY)", "if val != nil {", "if err == nil {", "this.Status = int32(v)", "} else {", "this.Status = 0", "}", "}"]
-
-def TagCountPack_Write : List String :=
-  ["this.AbstractPack.Write(dout)", "dout.WriteByte(0)", "dout.WriteText(this.Category)", "if this.tagHash == 0 && this.Tags.Size() > 0 {", "tagIO := io.NewDataOutputX()", "value.WriteValue(tagIO, this.Tags)", "tagBytes := tagIO.ToByteArray()", "this.tagHash = hash.Hash64(tagBytes)", "dout.WriteDecimal(this.tagHash)", "dout.WriteBytes(tagBytes)", "} else {", "dout.WriteDecimal(this.tagHash)", "value.WriteValue(dout, this.Tags)", "}", "value.WriteValue(dout, this.Data)"]
-
-def TagLogPack_Write : List String :=
-  ["this.AbstractPack.Write(dout)", "dout.WriteByte(0)", "dout.WriteText(this.Category)", "if this.tagHash == 0 && this.Tags.Size() > 0 {", "tagIO := io.NewDataOutputX()", "value.WriteValue(tagIO, this.Tags)", "tagBytes := tagIO.ToByteArray()", "this.tagHash = hash.Hash64(tagBytes)", "dout.WriteDecimal(this.tagHash)", "dout.WriteBytes(tagBytes)", "} else {", "dout.WriteDecimal(this.tagHash)", "value.WriteValue(dout, this.Tags)", "}", "value.WriteValue(dout, this.Fields)"]
-
-def LogSinkPack_Write : List String :=
-  ["this.AbstractPack.Write(dout)", "dout.WriteByte(0)", "dout.WriteText(this.Category)", "if this.TagHash == 0 && this.Tags.Size() > 0 {", "tagBytes := this.ResetTagHash()", "dout.WriteDecimal(this.TagHash)", "dout.WriteBytes(tagBytes)", "} else {", "dout.WriteDecimal(this.TagHash)", "value.WriteMapValue(dout, this.Tags)", "}", "dout.WriteDecimal(this.Line)", "dout.WriteText(this.Content)", "if this.Fields != nil && this.Fields.Size() > 0 {", "dout.WriteBool(true)", "value.WriteMapValue(dout, this.Fields)", "} else {", "dout.WriteBool(false)", "}"]
-
 def LogSinkPack_ResetTagHash : List String :=
   ["out := io.NewDataOutputX()", "value.WriteMapValue(out, this.Tags)", "tagBytes := out.ToByteArray()", "this.TagHash = hash.Hash64(tagBytes)", "return tagBytes"]
-
-def ParamPack_Write : List String :=
-  ["this.AbstractPack.Write(dout)", "dout.WriteInt(this.Id)", "dout.WriteDecimal(this.Request)", "dout.WriteDecimal(this.Response)", "dout.WriteDecimal(int64(this.table.Size()))", "keys := this.Keys()", "for keys.HasMoreElements() {", "value := this.table.Get(key).(val.Value)", "dout.WriteText(key)", "val.WriteValue(dout, value)", "}"]
-
-def ParamPack_Read : List String :=
-  ["this.AbstractPack.Read(din)", "this.Id = din.ReadInt()", "this.Request = din.ReadDecimal()", "this.Response = din.ReadDecimal()", "count := int(din.ReadDecimal())", "for t < count {", "key := din.ReadText()", "value := val.ReadValue(din)", "this.table.Put(key, value)", "}"]
-
-def ExtensionPack_Write : List String :=
-  ["this.AbstractPack.Write(dout)", "dout.WriteByte(0)", "dout.WriteBool(this.IsProjectWide)", "toHeaderBytes(dout, this.Header)", "value.WriteValue(dout, this.Value)"]
-
-def ExtensionPack_Read : List String :=
-  ["this.AbstractPack.Read(din)", "din.ReadByte()", "this.IsProjectWide = din.ReadBool()", "this.Header = toHeaderObject(din)", "this.Value = value.ReadValue(din).(*value.IntMapValue)"]
 
 def toHeaderBytes : List String :=
   ["dout.WriteDecimal(int64(m.Size()))", "en := m.Entries()", "for en.HasMoreElements() {", "dout.WriteText(e.GetKey())", "dout.WriteInt(e.GetValue())", "}"]
@@ -82,12 +55,6 @@ def ProfilePack_Write : List String :=
 def ProfilePack_Read : List String :=
   ["this.AbstractPack.Read(din)", "this.Transaction = service.NewTxRecord().Read(din)", "this.Steps = din.ReadBlob()"]
 
-def SMBasePack_Write : List String :=
-  ["dout := io.NewDataOutputX()", "this.AbstractPack.Write(dout)", "dout.WriteInt(this.IP)", "dout.WriteShort(this.OS)", "this.Cpu.Write(dout)", "dout.WriteByte(byte(len(this.CpuCore)))", "for i < len(this.CpuCore) {", "this.CpuCore[i].Write(dout)", "}", "this.Memory.Write(dout)", "dout.WriteDecimal(this.UpTime)", "dout.WriteLong(this.EpochTime)", "if this.Extra != nil && this.Extra.Size() > 0 {", "dout.WriteByte(1)", "value.WriteMapValue(dout, this.Extra)", "} else {", "dout.WriteByte(0)", "}", "doutx.WriteBlob(dout.ToByteArray())"]
-
-def SMBasePack_Read : List String :=
-  ["din := io.NewDataInputX(dinx.ReadBlob())", "this.AbstractPack.Read(din)", "this.IP = din.ReadInt()", "this.OS = din.ReadShort()", "switch this.OS {", "case OS_LINUX, OS_OSX, OS_AIX, OS_HPUX:", "this.Cpu = &CpuLinux{}", "this.Cpu.Read(din)", "cnt := int(din.ReadByte())", "this.CpuCore = make([]Cpu, cnt)", "for i < cnt {", "this.CpuCore[i] = &CpuLinux{}", "this.CpuCore[i].Read(din)", "}", "this.Memory = &MemoryLinux{}", "this.Memory.Read(din)", "case OS_WINDOW:", "this.Cpu = &CpuWindow{}", "this.Cpu.Read(din)", "cnt := int(din.ReadByte())", "this.CpuCore = make([]Cpu, cnt)", "for i < cnt {", "this.CpuCore[i] = &CpuWindow{}", "this.CpuCore[i].Read(din)", "}", "this.Memory = &MemoryWindow{}", "this.Memory.Read(din)", "}", "this.UpTime = din.ReadDecimal()", "this.EpochTime = din.ReadLong()", "if din.Available() == 0 {", "return", "}", "if din.ReadByte() > 0 {", "this.Extra = value.ReadMapValue(din)", "}"]
-
 def StatGeneralPack_Write : List String :=
   ["this.AbstractPack.Write(dout)", "dout.WriteText(this.Id)", "if this.data.Size() > 0 && (this.dataBytes == nil || len(this.dataBytes) == 0) {", "this.dataBytes = this.writeTable(this.data)", "this.dataBytesSize = len(this.dataBytes)", "}", "dout.WriteInt3(int32(this.dataBytesSize))", "dout.WriteBytes(this.dataBytes)", "if this.packType == PACK_STAT_GENERAL {", "return", "}", "o := io.NewDataOutputX()", "o.WriteDecimal(this.DataStartTime)", "dout.WriteBlob(o.ToByteArray())"]
 
@@ -102,12 +69,6 @@ def StatGeneralPack_readTable : List String :=
 
 def StatGeneralPack_unpack : List String :=
   ["if len(this.dataBytes) > 0 {", "this.readTable(this.dataBytes, this.data)", "this.dataBytes = nil", "this.dataBytesSize = 0", "}"]
-
-def CounterPack1_Write : List String :=
-  ["this.AbstractPack.Write(out)", "dout := io.NewDataOutputX()", "dout.WriteDecimal(int64(this.Duration))", "dout.WriteDecimal(int64(this.Cputime))", "dout.WriteDecimal(this.HeapTot)", "dout.WriteDecimal(this.HeapUse)", "dout.WriteDecimal(this.HeapPerm)", "dout.WriteDecimal(int64(this.HeapPendingFinalization))", "dout.WriteDecimal(int64(this.GcCount))", "dout.WriteDecimal(int64(this.GcTime))", "dout.WriteDecimal(int64(this.ServiceCount))", "dout.WriteDecimal(int64(this.ServiceError))", "dout.WriteDecimal(int64(this.ServiceTime))", "dout.WriteDecimal(int64(this.SqlCount))", "dout.WriteDecimal(int64(this.SqlError))", "dout.WriteDecimal(int64(this.SqlTime))", "dout.WriteDecimal(int64(this.SqlFetchCount))", "dout.WriteDecimal(int64(this.SqlFetchTime))", "dout.WriteDecimal(int64(this.HttpcCount))", "dout.WriteDecimal(int64(this.HttpcError))", "dout.WriteDecimal(int64(this.HttpcTime))", "dout.WriteDecimal(int64(this.ActSvcCount))", "this.writeShortArray(dout, this.ActSvcSlice)", "dout.WriteFloat(this.Cpu)", "dout.WriteFloat(this.CpuSys)", "dout.WriteFloat(this.CpuUsr)", "dout.WriteFloat(this.CpuWait)", "dout.WriteFloat(this.CpuSteal)", "dout.WriteFloat(this.CpuIrq)", "dout.WriteFloat(this.CpuProc)", "dout.WriteDecimal(int64(this.CpuCores))", "dout.WriteFloat(this.Mem)", "dout.WriteFloat(this.Swap)", "dout.WriteFloat(this.Disk)", "dout.WriteDecimal(int64(this.ThreadTotalStarted))", "dout.WriteDecimal(int64(this.ThreadCount))", "dout.WriteDecimal(int64(this.ThreadDaemon))", "dout.WriteDecimal(int64(this.ThreadPeakCount))", "if this.DbNumActive == nil || this.DbNumIdle == nil {", "dout.WriteByte(0)", "} else {", "dout.WriteByte(1)", "this.DbNumActive.ToBytes(dout)", "this.DbNumIdle.ToBytes(dout)", "}", "if this.Netstat == nil {", "dout.WriteByte(0)", "} else {", "dout.WriteByte(1)", "dout.WriteDecimal(int64(this.Netstat.Est))", "dout.WriteDecimal(int64(this.Netstat.FinW))", "dout.WriteDecimal(int64(this.Netstat.CloW))", "dout.WriteDecimal(int64(this.Netstat.TimW))", "}", "dout.WriteDecimal(int64(this.ProcFd))", "dout.WriteFloat(this.Tps)", "dout.WriteDecimal(int64(this.RespTime))", "dout.WriteShort(this.ApType)", "if this.Websocket == nil {", "dout.WriteByte(0)", "} else {", "dout.WriteByte(1)", "dout.WriteDecimal(int64(this.Websocket.Count))", "dout.WriteDecimal(this.Websocket.In)", "dout.WriteDecimal(this.Websocket.Out)", "}", "dout.WriteDecimal(int64(this.Starttime))", "dout.WriteDecimal(int64(this.PackDropped))", "dout.WriteDecimal(int64(this.HostIp))", "dout.WriteDecimal(int64(this.MacHash))", "if this.Extra == nil {", "dout.WriteByte(0)", "} else {", "dout.WriteByte(1)", "value.WriteValue(dout, this.Extra)", "}", "dout.WriteInt(this.Pid)", "if this.ActiveStat != nil {", "sz = len(this.ActiveStat)", "}", "dout.WriteByte(byte(sz))", "for i < sz {", "dout.WriteShort(this.ActiveStat[i])", "}", "dout.WriteDecimal(int64(this.ThreadPoolActiveCount))", "dout.WriteDecimal(int64(this.ThreadPoolQueueSize))", "this.writeTxcallerOidMeter(dout)", "this.writeSqlMeter(dout)", "this.writeHttpcMeter(dout)", "this.writeTxcallerGroupMeter(dout)", "dout.WriteDecimal(0)", "this.writeTxcallerOther(dout)", "dout.WriteDecimal(int64(this.ContainerKey))", "dout.WriteFloat(this.TxDbcTime)", "dout.WriteFloat(this.TxSqlTime)", "dout.WriteFloat(this.TxHttpcTime)", "dout.WriteDecimal(int64(this.ApdexSatisfied))", "dout.WriteDecimal(int64(this.ApdexTolerated))", "dout.WriteFloat(this.ArrivalRate)", "dout.WriteDecimal(int64(this.GcOldgenCount))", "dout.WriteByte(this.Version)", "dout.WriteDecimal(this.HeapMax)", "dout.WriteDecimal(int64(this.ProcFdMax))", "dout.WriteFloat(this.Metering)", "dout.WriteDecimal(int64(this.ApdexTotal))", "this.writeTxcallerPOidMeter(dout)", "dout.WriteDecimal(int64(this.Resp90))", "dout.WriteDecimal(int64(this.Resp95))", "dout.WriteDecimal(this.TimeSqrSum)", "out.WriteBlob(dout.ToByteArray())"]
-
-def CounterPack1_Read : List String :=
-  ["this.AbstractPack.Read(in)", "din := io.NewDataInputX(in.ReadBlob())", "this.Duration = int32(din.ReadDecimal())", "this.Cputime = din.ReadDecimal()", "this.HeapTot = din.ReadDecimal()", "this.HeapUse = din.ReadDecimal()", "this.HeapPerm = din.ReadDecimal()", "this.HeapPendingFinalization = int32(din.ReadDecimal())", "this.GcCount = int32(din.ReadDecimal())", "this.GcTime = din.ReadDecimal()", "this.ServiceCount = int32(din.ReadDecimal())", "this.ServiceError = int32(din.ReadDecimal())", "this.ServiceTime = din.ReadDecimal()", "this.SqlCount = int32(din.ReadDecimal())", "this.SqlError = int32(din.ReadDecimal())", "this.SqlTime = din.ReadDecimal()", "this.SqlFetchCount = din.ReadDecimal()", "this.SqlFetchTime = din.ReadDecimal()", "this.HttpcCount = int32(din.ReadDecimal())", "this.HttpcError = int32(din.ReadDecimal())", "this.HttpcTime = din.ReadDecimal()", "this.ActSvcCount = int32(din.ReadDecimal())", "this.ActSvcSlice = this.readShortArray(din)", "this.Cpu = din.ReadFloat()", "this.CpuSys = din.ReadFloat()", "this.CpuUsr = din.ReadFloat()", "this.CpuWait = din.ReadFloat()", "this.CpuSteal = din.ReadFloat()", "this.CpuIrq = din.ReadFloat()", "this.CpuProc = din.ReadFloat()", "this.CpuCores = int32(din.ReadDecimal())", "this.Mem = din.ReadFloat()", "this.Swap = din.ReadFloat()", "this.Disk = din.ReadFloat()", "this.ThreadTotalStarted = din.ReadDecimal()", "this.ThreadCount = int32(din.ReadDecimal())", "this.ThreadDaemon = int32(din.ReadDecimal())", "this.ThreadPeakCount = int32(din.ReadDecimal())", "if din.ReadByte() != 0 {", "this.DbNumActive = hmap.NewIntIntMap(7, 1).ToObject(din)", "this.DbNumIdle = hmap.NewIntIntMap(7, 1).ToObject(din)", "}", "if din.ReadByte() != 0 {", "this.Netstat = NewNETSTAT()", "this.Netstat.Est = int32(din.ReadDecimal())", "this.Netstat.FinW = int32(din.ReadDecimal())", "this.Netstat.CloW = int32(din.ReadDecimal())", "this.Netstat.TimW = int32(din.ReadDecimal())", "}", "this.ProcFd = int32(din.ReadDecimal())", "this.Tps = din.ReadFloat()", "this.RespTime = int32(din.ReadDecimal())", "this.ApType = din.ReadShort()", "if din.ReadByte() != 0 {", "this.Websocket = NewWEBSOCKET()", "this.Websocket.Count = int32(din.ReadDecimal())", "this.Websocket.In = din.ReadDecimal()", "this.Websocket.Out = din.ReadDecimal()", "}", "this.Starttime = din.ReadDecimal()", "this.PackDropped = din.ReadDecimal()", "this.HostIp = int32(din.ReadDecimal())", "this.MacHash = int32(din.ReadDecimal())", "if din.ReadByte() == 1 {", "this.Extra = value.ReadValue(din).(*value.IntMapValue)", "}", "this.ActiveStat = make([]int16, 0)", "this.Pid = din.ReadInt()", "sz := int(din.ReadByte())", "for i < sz {", "this.ActiveStat = append(this.ActiveStat, din.ReadShort())", "}", "this.ThreadPoolActiveCount = int32(din.ReadDecimal())", "this.ThreadPoolQueueSize = int32(din.ReadDecimal())", "this.readTxcallerOidMeter(din)", "this.readSqlMeter(din)", "this.readHttpcMeter(din)", "this.readTxcallerGroupMeter(din)", "this.readTxcallerOkindMeterDeprecated(din)", "this.readTxcallerUnknown(din)", "this.ContainerKey = int32(din.ReadDecimal())", "this.TxDbcTime = din.ReadFloat()", "this.TxSqlTime = din.ReadFloat()", "this.TxHttpcTime = din.ReadFloat()", "this.ApdexSatisfied = int32(din.ReadDecimal())", "this.ApdexTolerated = int32(din.ReadDecimal())", "this.ArrivalRate = din.ReadFloat()", "this.GcOldgenCount = int32(din.ReadDecimal())", "this.Version = din.ReadByte()", "this.HeapMax = din.ReadDecimal()", "this.ProcFdMax = int32(din.ReadDecimal())", "this.Metering = din.ReadFloat()", "this.ApdexTotal = int32(din.ReadDecimal())", "this.readTxcallerPOidMeter(din)", "this.Resp90 = int32(din.ReadDecimal())", "this.Resp95 = int32(din.ReadDecimal())", "this.TimeSqrSum = din.ReadDecimal()"]
 
 def CounterPack1_writeShortArray : List String :=
   ["if v == nil {", "out.WriteByte(0)", "} else {", "out.WriteByte(byte(len(v)))", "for i < len(v) {", "out.WriteShort(v[i])", "}", "}"]
@@ -237,5 +198,38 @@ def SMDownCheckPack_SetRecords : List String :=
 
 def SMDownCheckPack_GetRecords : List String :=
   ["in := io.NewDataInputX(this.Records)", "sz := int(in.ReadShort()) & 0xffff", "in.CheckCount(sz, 7)", "for i < sz {", "items[i] = this.ReadRec(in)", "}", "return items"]
+
+def CounterPack1_wGaps : List String :=
+  ["this.writeShortArray(dout, this.ActSvcSlice)", "if this.DbNumActive == nil || this.DbNumIdle == nil { dout.WriteByte(0) } else { dout.WriteByte(1) this.DbNumActive.ToBytes(dout) this.DbNumIdle.ToBytes(dout) }", "if this.ActiveStat != nil { sz = len(this.ActiveStat) } ; dout.WriteByte(byte(sz)) ; for i := 0; i < sz; i++ { dout.WriteShort(this.ActiveStat[i]) }", "this.writeTxcallerOidMeter(dout) ; this.writeSqlMeter(dout) ; this.writeHttpcMeter(dout) ; this.writeTxcallerGroupMeter(dout)", "this.writeTxcallerOther(dout)", "this.writeTxcallerPOidMeter(dout)"]
+
+def CounterPack1_rGaps : List String :=
+  ["this.ActSvcSlice = this.readShortArray(din)", "if din.ReadByte() != 0 { this.DbNumActive = hmap.NewIntIntMap(7, 1).ToObject(din) this.DbNumIdle = hmap.NewIntIntMap(7, 1).ToObject(din) }", "count(u8 sz); for i := 0; i < sz; i++ { this.ActiveStat = append(this.ActiveStat, din.ReadShort()) }", "this.readTxcallerOidMeter(din) ; this.readSqlMeter(din) ; this.readHttpcMeter(din) ; this.readTxcallerGroupMeter(din) ; this.readTxcallerOkindMeterDeprecated(din) ; this.readTxcallerUnknown(din)", "this.readTxcallerPOidMeter(din)"]
+
+def TagCountPack_wGaps : List String :=
+  ["if this.tagHash == 0 && this.Tags.Size() > 0 { tagIO := io.NewDataOutputX() value.WriteValue(tagIO, this.Tags) tagBytes := tagIO.ToByteArray() this.tagHash = hash.Hash64(tagBytes) dout.WriteDecimal(this.tagHash) dout.WriteBytes(tagBytes) } else { dout.WriteDecimal(this.tagHash) value.WriteValue(dout, this.Tags) }"]
+
+def TagLogPack_wGaps : List String :=
+  ["if this.tagHash == 0 && this.Tags.Size() > 0 { tagIO := io.NewDataOutputX() value.WriteValue(tagIO, this.Tags) tagBytes := tagIO.ToByteArray() this.tagHash = hash.Hash64(tagBytes) dout.WriteDecimal(this.tagHash) dout.WriteBytes(tagBytes) } else { dout.WriteDecimal(this.tagHash) value.WriteValue(dout, this.Tags) }"]
+
+def LogSinkPack_wGaps : List String :=
+  ["if this.TagHash == 0 && this.Tags.Size() > 0 { tagBytes := this.ResetTagHash() dout.WriteDecimal(this.TagHash) dout.WriteBytes(tagBytes) } else { dout.WriteDecimal(this.TagHash) value.WriteMapValue(dout, this.Tags) }"]
+
+def ParamPack_wGaps : List String :=
+  ["count(dec table); keys := this.Keys() ; for keys.HasMoreElements() { key := keys.NextString() value := this.table.Get(key).(val.Value) dout.WriteText(key) val.WriteValue(dout, value) }"]
+
+def ParamPack_rGaps : List String :=
+  ["count(dec count); for t := 0; t < count; t++ { key := din.ReadText() value := val.ReadValue(din) this.table.Put(key, value) }"]
+
+def ExtensionPack_wGaps : List String :=
+  ["toHeaderBytes(dout, this.Header)"]
+
+def ExtensionPack_rGaps : List String :=
+  ["this.Header = toHeaderObject(din)"]
+
+def EventPack_wGaps : List String :=
+  ["if this.Uuid != \"\" { this.Attr.Put(UUID_KEY, this.Uuid) } ; if this.Escalation { this.Attr.Put(ESCALATION_KEY, \"true\") } else { this.Attr.Put(ESCALATION_KEY, \"false\") } ; this.Attr.Put(STATUS_KEY, fmt.Sprintf(\"%d\", this.Status)) ; this.Attr.Put(OTYPE_KEY, fmt.Sprintf(\"%d\", this.Otype)) ; count(u8 Attr); for i := 0; i < sz; i++ { e := en.NextElement().(*hmap.StringKeyLinkedEntry) dout.WriteText(e.GetKey()) dout.WriteText(e.GetValue().(string)) } ; this.Attr.Remove(UUID_KEY) ; this.Attr.Remove(ESCALATION_KEY) ; this.Attr.Remove(STATUS_KEY) ; this.Attr.Remove(OTYPE_KEY)"]
+
+def EventPack_rGaps : List String :=
+  ["val := this.Attr.Remove(ESCALATION_KEY) ; if val != nil { if val.(string) == \"true\" { this.Escalation = true } else { this.Escalation = false } } ; val = this.Attr.Remove(UUID_KEY) ; if val != nil { this.Uuid = val.(string) } else { val = \"\" } ; val = this.Attr.Remove(OTYPE_KEY) ; if val != nil { v, err := strconv.Atoi(val.(string)) if err == nil { this.Otype = int32(v) } else { this.Otype = 0 } } ; val = this.Attr.Remove(STATUS_KEY) ; if val != nil { v, err := strconv.Atoi(val.(string)) if err == nil { this.Status = int32(v) } else { this.Status = 0 } }"]
 
 end Packs.Skeletons
